@@ -232,6 +232,31 @@ Proof.
 Qed.
 Print Assumptions C19_known_finding_KF3.
 
+(** Known finding KF4 (known_findings.json), as a theorem about the faithful model.  Delimiters "/* <"
+    and "> */".  The source  x /*<T2000>gone</T> <b ⏎ <T2100>keep</T> ⏎ end  contains the delimiter
+    strings only as parts of tags.  Cleaning in 2011 removes the first element and JOINS "x /*" with
+    " <b": the output contains the start delimiter "/* <" outside any tag.  Cleaning that output in 2111
+    changes nothing - "/* <b ⏎ /* <tl to=…> */" is now one bogus tag, the opening tag of the expired
+    element is swallowed and its closing tag is stranded - while cleaning the source once in 2111
+    removes the element.  (The tree-level theorems above exclude this through [good_doc]: the delimiter
+    BYTES occur nowhere else, which is stronger than the property's condition on delimiter strings.) *)
+Definition kf4_ds : str := [47; 42; 32; 60]%N.
+Definition kf4_de : str := [62; 32; 42; 47]%N.
+Definition kf4_cfg (now : Z) : config := mkConfig [116;108]%N [43;48;48;58;48;48]%N now [114;109]%N [].
+Definition kf4_src : str := [120; 32; 47; 42; 47; 42; 32; 60; 116; 108; 32; 116; 111; 61; 34; 50; 48; 48; 48; 45; 48; 49; 45; 48; 49; 32; 48; 48; 58; 48; 48; 58; 48; 48; 34; 62; 32; 42; 47; 103; 111; 110; 101; 47; 42; 32; 60; 47; 116; 108; 62; 32; 42; 47; 32; 60; 98; 10; 47; 42; 32; 60; 116; 108; 32; 116; 111; 61; 34; 50; 49; 48; 48; 45; 48; 49; 45; 48; 49; 32; 48; 48; 58; 48; 48; 58; 48; 48; 34; 62; 32; 42; 47; 107; 101; 101; 112; 47; 42; 32; 60; 47; 116; 108; 62; 32; 42; 47; 10; 101; 110; 100; 10]%N.
+Definition kf4_out1 : str := [120; 32; 47; 42; 32; 60; 98; 10; 47; 42; 32; 60; 116; 108; 32; 116; 111; 61; 34; 50; 49; 48; 48; 45; 48; 49; 45; 48; 49; 32; 48; 48; 58; 48; 48; 58; 48; 48; 34; 62; 32; 42; 47; 107; 101; 101; 112; 47; 42; 32; 60; 47; 116; 108; 62; 32; 42; 47; 10; 101; 110; 100; 10]%N.
+Definition kf4_out2 : str := [120; 32; 47; 42; 32; 60; 98; 10; 101; 110; 100; 10]%N.
+Theorem C19_known_finding_KF4 :
+  clean (kf4_cfg 1293840000) kf4_ds kf4_de kf4_src = Ok kf4_out1 /\
+  clean (kf4_cfg 4449513600) kf4_ds kf4_de kf4_out1 = Ok kf4_out1 /\
+  clean (kf4_cfg 4449513600) kf4_ds kf4_de kf4_src = Ok kf4_out2 /\
+  nonws kf4_out1 <> nonws kf4_out2.
+Proof.
+  split; [vm_compute; reflexivity|]. split; [vm_compute; reflexivity|].
+  split; [vm_compute; reflexivity|]. vm_compute. discriminate.
+Qed.
+Print Assumptions C19_known_finding_KF4.
+
 (** The older partial results, for arbitrary sources.  (1) A second run is the identity as soon as the first output contains no ready
     element (C04 applied to the output). *)
 Theorem C19_second_run_identity_partial :
